@@ -17,6 +17,7 @@ package redis
 import (
 	"strconv"
 	"strings"
+	"sync"
 )
 
 const (
@@ -25,23 +26,30 @@ const (
 
 // Config represents a server configuration.
 type Config struct {
+	// mutex guards params: the configuration is read by every connection and written by CONFIG SET.
+	mutex  sync.RWMutex
 	params map[string]string
 }
 
 // newConfig returns a new configuration.
 func newConfig() *Config {
 	return &Config{
+		mutex:  sync.RWMutex{},
 		params: map[string]string{},
 	}
 }
 
 // SetConfig sets a specified parameter.
 func (cfg *Config) SetConfig(key string, params string) {
+	cfg.mutex.Lock()
+	defer cfg.mutex.Unlock()
 	cfg.params[key] = params
 }
 
 // AppendConfig appends a specified parameter.
 func (cfg *Config) AppendConfig(key string, params string) {
+	cfg.mutex.Lock()
+	defer cfg.mutex.Unlock()
 	currParams, ok := cfg.params[key]
 	if !ok {
 		cfg.params[key] = params
@@ -52,12 +60,16 @@ func (cfg *Config) AppendConfig(key string, params string) {
 
 // ConfigString return the specified parameter.
 func (cfg *Config) ConfigString(key string) (string, bool) {
+	cfg.mutex.RLock()
+	defer cfg.mutex.RUnlock()
 	params, ok := cfg.params[key]
 	return params, ok
 }
 
 // ConfigInteger returns the specified parameter as an integer.
 func (cfg *Config) ConfigInteger(key string) (int, bool) {
+	cfg.mutex.RLock()
+	defer cfg.mutex.RUnlock()
 	params, ok := cfg.params[key]
 	if !ok {
 		return 0, false
@@ -71,5 +83,7 @@ func (cfg *Config) ConfigInteger(key string) (int, bool) {
 
 // RemoveConfig removes the specified parameter.
 func (cfg *Config) RemoveConfig(key string) {
+	cfg.mutex.Lock()
+	defer cfg.mutex.Unlock()
 	delete(cfg.params, key)
 }
